@@ -87,6 +87,10 @@ def fixed_cases() -> list:
         for pre in ([], [['open', 'valid']], [['open', 'valid'], ['wait', 0.05]], [['handshake']], [['handshake'], ['update']]):
             for passive in (False, True):
                 out.append({'passive': passive, 'hold': 30, 'connect_ok': True, 'gr': False, 'ops': ([['in']] if passive else []) + pre + [end, ['wait', 0.5], ['open', 'valid'], ['ka'], ['wait', 1.0]]})
+    # a session which dies before it is established (NOTIFICATION in OPENSENT / OPENCONFIRM, the peer going away), then sessions
+    # which establish and drop: every `up` still has its `down`
+    for early in ([['notif', 6, 5]], [['open', 'valid'], ['notif', 6, 5]], [['open', 'valid'], ['eof']], [['rst']]):
+        out.append({'passive': False, 'hold': 30, 'connect_ok': True, 'gr': False, 'ops': early + [['wait', 20.0], ['handshake'], ['wait', 0.5], ['eof'], ['wait', 20.0], ['handshake'], ['wait', 0.5], ['notif', 6, 4], ['wait', 20.0], ['handshake'], ['wait', 1.0]]})
     return out
 
 
